@@ -51,6 +51,7 @@ type Exec struct {
 	initStates map[*ssa.Package]*State
 	recorders  []*recorder
 	skipHeader *ssa.BasicBlock
+	wsCache    map[*ssa.Function]*WriteSet
 	iterPrefix map[string]*Term
 	arrayFam   map[string]int
 }
@@ -840,7 +841,11 @@ func (ex *Exec) runFrom(fr *Frame, b *ssa.BasicBlock, idx int, st *State) []Resu
 					st2.Assume(Not(c))
 					ex.nstates++
 					if ex.nstates > ex.maxStates {
-						ex.unsupp("path explosion in %s (> %d states)", ex.fnPrefix, ex.maxStates)
+						var stk []string
+						for _, f := range ex.callStack {
+							stk = append(stk, f.Name())
+						}
+						ex.unsupp("path explosion in %s (> %d states) at %v (spec=%d rec=%d)", ex.fnPrefix, ex.maxStates, stk, ex.specMode, len(ex.recorders))
 						return nil
 					}
 					var out []Result
